@@ -94,9 +94,9 @@ def run(ctx):
             if ctx.match_finding(lambda k: k["id"] == "F141"): continue
         if "heap-buffer-overflow" in o and "INTEGER_decode_oer" in o:
             if ctx.match_finding(lambda k: k["id"] == "F5"): continue
-        if "LeakSanitizer" in o and syn == "oer":
-            tfe = gfind.features(dict(_types_of(txt)).get(n, {"k": "NULL"}), dict(_types_of(txt))) if False else None
-            if ctx.match_finding(lambda k: k["id"] == "F53"): continue
+        if "LeakSanitizer" in o:
+            # the leak is the CANONICAL-XER re-encoding of the decoded structure (SET_OF_encode_xer failure paths, F21)
+            if ctx.match_finding(lambda k: k["id"] == "F21"): continue
         if "UniversalString.c:100" in o and "left shift" in o:
             if ctx.match_finding(lambda k: k["id"] == "F50"): continue
         if "OCTET_STRING.c:587" in o and "shift exponent" in o:
